@@ -13,6 +13,8 @@ quiescent without delivery is reported as 'silently-unsent', one that is still
 retransmitting as 'not-delivered-within-horizon'.  Exceptions from a send API
 are violations.
 """
+import struct
+
 from mc import core, explore
 from mc.world import World, Monitor
 from mc.pair import DeliveryMonitor, app_send, payload, quiescent
@@ -108,7 +110,7 @@ def scenario(params, ch):
     if hist:
         Packet.setMTU(hist)       # the process configured another MTU before (setMTU writes process-wide state)
     try:
-        w = World(order=order, latency=latency, chooser=ch, monitors=[mon, watch], mtu=mtu, dt=(1.0 / 60 if "dt60" in opts else 1.0 / 64),
+        w = World(order=order, latency=latency, chooser=ch, monitors=[mon, watch], mtu=mtu, dt=(1.0 / 60 if "dt60" in opts else 0.02 if "dt50" in opts else 1.0 / 64),
                   server_cfg=({"setKeepAliveInterval": ka} if ka else None), client_cfg=({"setKeepAliveInterval": ka} if ka else None))
     except BaseException:
         watch.close()
@@ -121,6 +123,17 @@ def scenario(params, ch):
             w.preset_near_wrap()
         data = payload(1, size)
         w.fates = list(fates)
+        bidi = other[1] if isinstance(other, (tuple, list)) and other[0] == "bidi" else None
+        peer = "s" if sender == "c" else "c"
+
+        def bidi_tick(k):
+            # both ends send a small unretried message every tick: datagram numbers advance and acks flow every tick
+            app_send(w, mon, sender, b"u" + struct.pack(">H", k), "none")
+            app_send(w, mon, peer, b"d" + struct.pack(">H", k), "none")
+            w.tick()
+        if bidi is not None:
+            for k in range(bidi):
+                bidi_tick(k)
         if other == "last-in-datagram":
             # queued in the same frame behind other messages: the guaranteed message is the LAST of the datagram
             app_send(w, mon, sender, payload(2, 25), "none")
@@ -147,6 +160,8 @@ def scenario(params, ch):
             w.run(1)
             for k in range(300):
                 app_send(w, mon, sender, b"%c" % (k % 251), "none")
+        elif bidi is not None:
+            pass
         elif other:
             # unrelated traffic in the same and the opposite direction
             app_send(w, mon, sender, payload(2, 30), "none")
@@ -185,6 +200,9 @@ def scenario(params, ch):
             w.run(start)
             w.start_blackout(direction, ticks)
             w.run(max(0, window - start))
+        elif bidi is not None:
+            for k in range(window):
+                bidi_tick(1000 + k)
         else:
             w.run(window)
         w.fates = []  # healed
@@ -431,6 +449,15 @@ def params_list(tier):
                     if other == "frag" and size < 1435:
                         continue
                     out.append((api, size, mtu, fates if other is False else ("drop",), b, other, "cs|wrap", 1, 8))
+    # ... with both ends sending every tick, the guaranteed message leaving in the k-th datagram from the preset (65531 + k):
+    # a loss right before the datagram number wraps is acknowledged (or not) by headers whose ack is already past the wrap
+    for api in ("c.send_guaranteed", "s.send_guaranteed"):
+        # (frames of 1/50 s > send_interval: one datagram per tick and direction, the 0.1 s resend is 5 ticks away)
+        for k in ((0, 1, 2, 3, 4) if tier == "quick" else (0, 1, 2, 3, 4, 5, 6, 8)):
+            for size in ((40,) if tier == "quick" else (40, 2500)):
+                out.append((api, size, 1500, ("drop",), None, ("bidi", k), "cs|wrap|dt50", 1, 12))
+                if tier == "thorough":
+                    out.append((api, size, 1500, ("drop", "delay8"), None, ("bidi", k), "cs|wrap", 1, 16))
     # selective loss by size (the large fragment of a message is lost for longer than the receiver-side expiry of
     # 1 + n/2 s, the small one arrives at once), then healed
     for api in ("c.send_guaranteed", "s.send_guaranteed"):
